@@ -51,7 +51,7 @@ var concSources = []string{
 	`find all @/(x)(y)(z)\3\2\1/ find all @/(q)\1/`,
 }
 
-var concTexts = []string{"abba abab c", "aabbc ac bcb", "a1b22 xyzzyx qq", ""}
+var concTexts = []string{"abba abab c", "aabbc ac bcb", "a1b22 xyzzyx qq", "", "ababababababababababab aaaaaaaaaaaaaaaaaaaaaaaaaaaaaa 01234567890123456789"}
 
 type concResult struct {
 	err  string
@@ -81,7 +81,10 @@ func concCall(shared []*libvore.Vore, c ConcCase, op ConcOp) (res concResult) {
 }
 
 func checkConcCase(c ConcCase) (sig, what string) {
-	// sequential reference
+	// The concurrent repetitions run FIRST and the sequential reference is computed
+	// afterwards: state that is built lazily on first use (caches, interned tables)
+	// is then still cold when the goroutines race for it. (A reference computed
+	// first warms such state and hides the race - seeded change C19j.)
 	shared := make([]*libvore.Vore, len(c.Sources))
 	for i, s := range c.Sources {
 		v, err, p := CompileSafe(s)
@@ -89,17 +92,12 @@ func checkConcCase(c ConcCase) (sig, what string) {
 			shared[i] = v
 		}
 	}
-	want := make([][]concResult, len(c.Jobs))
-	for g, job := range c.Jobs {
-		for _, op := range job {
-			want[g] = append(want[g], concCall(shared, c, op))
-		}
-	}
 	reps := c.Reps
 	if reps <= 0 {
 		reps = 20
 	}
 	defer runtime.GOMAXPROCS(runtime.GOMAXPROCS(0))
+	all := make([][][]concResult, reps)
 	for rep := 0; rep < reps; rep++ {
 		if rep%2 == 0 {
 			runtime.GOMAXPROCS(2)
@@ -121,6 +119,16 @@ func checkConcCase(c ConcCase) (sig, what string) {
 		}
 		close(start)
 		wg.Wait()
+		all[rep] = got
+	}
+	// sequential reference
+	want := make([][]concResult, len(c.Jobs))
+	for g, job := range c.Jobs {
+		for _, op := range job {
+			want[g] = append(want[g], concCall(shared, c, op))
+		}
+	}
+	for rep, got := range all {
 		for g := range c.Jobs {
 			for i := range c.Jobs[g] {
 				if got[g][i] != want[g][i] {
